@@ -115,7 +115,7 @@ impl Vm {
     /// inside it belong to the body (R7RS 4.2.3, 5.3.2). A macro use in body position is
     /// expanded far enough to see whether it is a begin: that is how a macro emits
     /// several definitions.
-    fn splice_body(&mut self, body: &Cell) -> Result<Vec<Cell>, Error> {
+    pub fn splice_body(&mut self, body: &Cell) -> Result<Vec<Cell>, Error> {
         let mut pending: Vec<Cell> = body.iter().cloned().collect();
         pending.reverse();
         let mut forms = vec![];
